@@ -149,6 +149,41 @@ func benignStream(c *corpus, r *rng, tier string) *inputSet {
 		}
 		s.add("words-and-numbers", strings.Join(parts, " "))
 	}
+	// over-long identifiers (33..64 bytes): parseWord clips them at 32 bytes and never looks them up;
+	// the tail from byte 32 on spells a keyword, so a scan that resumes inside the word is exposed
+	var kws []string
+	for k, v := range li.VerifSQLKeywords() {
+		if v != 'F' && !strings.ContainsAny(k, " .`") && len(k) >= 2 && len(k) <= 20 && isBenignWord("z"+k) {
+			kws = append(kws, k)
+		}
+	}
+	sort.Strings(kws)
+	for i := 0; i < n/8 && len(kws) > 0; i++ {
+		k := kws[r.intn(len(kws))]
+		if r.coin(1, 2) {
+			k = strings.ToLower(k)
+		}
+		padn := 32
+		if r.coin(1, 3) {
+			padn = 28 + r.intn(10)
+		}
+		pad := make([]byte, padn)
+		for j := range pad {
+			pad[j] = letters[r.intn(len(letters))]
+		}
+		w := string(pad) + k
+		if !isBenignWord(w) {
+			continue
+		}
+		switch r.intn(3) {
+		case 0:
+			s.add("long-word-keyword-tail", w+" "+number())
+		case 1:
+			s.add("long-word-keyword-tail", w)
+		case 2:
+			s.add("long-word-keyword-tail", item()+" "+w+" "+item())
+		}
+	}
 	// all {word,number} class sequences up to 6 items with fixed representatives
 	reps := []string{"hello", "42"}
 	var rec func(cur []string, d int)
@@ -385,6 +420,29 @@ func grammarSQLStream(r *rng, tier string) *inputSet {
 		}
 		x = caseVariant(x, none[:len(x)], r.intn(4), r)
 		s.add("beyond-core", x)
+	}
+	return s
+}
+
+// ---------------- C08: inputs whose verdict is true, with extra tokens / comments behind them ----------------
+
+// The consistency clauses bind only on a true verdict: attack strings of the frozen grammar, extended by
+// further tokens and by every trailing comment style, so that fingerprints of every length 1..5 (and what
+// follows the fifth token) occur.
+func verdictStream(c *corpus, r *rng, tier string) *inputSet {
+	s := sqlAll(c, r, tier, 1)
+	g := loadGrammar("/verif/grammar/sqli_grammar.txt")
+	n := 6000
+	if tier == "thorough" {
+		n = 200000
+	}
+	more := []string{"", " from", " from t", " 1", " , 2", " x", " union", " select", " ("}
+	tails := []string{"", " --", " -- x", "--", " #", " /* x */", " /*", ";", " -- \n1"}
+	for i := 0; i < n && len(g) > 0; i++ {
+		t := g[r.intn(len(g))]
+		x := instantiate(t, func() string { return " " })
+		x = strings.TrimRight(x, "-#/* ;")
+		s.add("attack-with-tail", x+more[r.intn(len(more))]+tails[r.intn(len(tails))])
 	}
 	return s
 }
